@@ -31,6 +31,23 @@ def obligations(prop, tier):
     if prop == "C10":
         for n in ([1, 2, 5, 19, 20, 21] if q else list(range(1, 23))):
             L.append(ob("parseuint/n=%d" % n, "internal/jsonwire", "VerifC10ParseUint", [n], timeout_ms=60000))
+    if prop == "C11":
+        B = (False, True)
+        for n in ([1, 2, 3] if q else [1, 2, 3, 4]):
+            for h in B:
+                for j in B:
+                    for a in B:
+                        L.append(ob("quote/n=%d/html=%d/js=%d/allow=%d" % (n, h, j, a), "internal/jsonwire", "VerifC11Quote", [n, h, j, a]))
+        for n in ([2, 3, 4] if q else [2, 3, 4, 5]):
+            for v in B:
+                L.append(ob("scan/n=%d/validate=%d" % (n, v), "internal/jsonwire", "VerifC11Scan", [n, v]))
+        T = ['"\\u????"', '"\\uD???\\uD???"', '"\\u????\\u??', '"??\\u00??"'] if q else ['"\\u????"', '"\\uD???\\uD???"', '"\\u????\\u??', '"\\uD8??\\?D???"', '"??\\u00??"', '"\\u????\\u????"', '"\\u?????"', '"\\uD8???????"', '"???\\u????"']
+        for i, t in enumerate(T):
+            for v in B:
+                L.append(ob("scanT/%d/validate=%d" % (i, v), "internal/jsonwire", "VerifC11ScanT", [t, v]))
+        for n in ([3, 4] if q else [3, 4, 5]):
+            for h, j, a, p in ((0, 0, 0, 0), (1, 1, 0, 0), (1, 0, 0, 1), (0, 1, 1, 1), (0, 0, 1, 0), (0, 0, 0, 1)):
+                L.append(ob("reformat/n=%d/html=%d/js=%d/allow=%d/preserve=%d" % (n, h, j, a, p), "internal/jsonwire", "VerifC11Reformat", [n, bool(h), bool(j), bool(a), bool(p)]))
     if prop == "C19":
         L.append(ob("flags/algebra", "internal/jsonflags", "VerifC19Flags", [], second="cvc5", covers=["end"]))
         L.append(ob("flags/v1v2", "internal/jsonflags", "VerifC19V1V2", [], second="cvc5", covers=["end"]))
